@@ -1222,6 +1222,10 @@ pub fn gen_case(prop: &str, rng: &mut Rng, n: usize, thorough: bool) -> (String,
             ("u16".into(), Input::U16 { units, ops })
         }
         "C19" => {
+            if n == 126 + 256 + 1 + 900 {
+                // deserialisation is a construction path too (answered only by a build with the serde feature)
+                return ("serde".into(), Input::Serde);
+            }
             if n <= 126 {
                 ("level".into(), Input::Lvl { l: n as u8 })
             } else if n <= 126 + 256 {
